@@ -469,6 +469,13 @@ pub const VALUATIONS: &[[&str; 6]] = &[
     ["7", "2", "0.5", "3", "2", "4"],
     ["NULL", "0", "1", "\"\"", "2", "3"],
     ["3", "2", "1", "3", "2", "1"],
+    // values for which the grouping of floating-point operations (and a fused multiply-add) is visible
+    ["0.1", "-0.30000000000000004", "0.1", "3", "0.2", "0.7"],
+    ["10000000000000000", "0.1", "0.2", "0.3", "1", "3"],
+    ["0.1", "1", "3", "3", "0.1", "7"],
+    ["0.3", "0.1", "3", "0.1", "-0.3", "0.6"],
+    ["-0.30000000000000004", "0.1", "3", "0.7", "0.1", "3"],
+    ["1", "0.1", "0.1", "-0.010000000000000002", "10", "0.1"],
 ];
 
 pub fn pexpr_program(e: &str, valuation: &[&str; 6]) -> String {
